@@ -83,5 +83,5 @@ def run_program(ctx, rng):
 
 
 def run(ctx):
-    for _, rng in ctx.cases("programs", ctx.n(1500, 40000)):
+    for _, rng in ctx.cases("programs", ctx.budget(36000, 700000)):
         ctx.run_case(run_program, ctx, rng)
